@@ -1,8 +1,8 @@
 SPECIFICATION Spec
 CONSTANTS
-  REPAIRED = FALSE
+  REPAIRED = TRUE
   MaxLen = 3
   FullUpTo = 2
-  KnownDev = {"prefix", "wrap"}
+  KnownDev = {}
 INVARIANTS SegInv ItemInv BindInv
 CHECK_DEADLOCK FALSE
